@@ -12,8 +12,9 @@ Writes /verif/seeded/<id>/{patch.diff, demo.py, meta.json, agent_meta.txt}."""
 import json, os, re, shutil, subprocess, sys, time
 V = os.path.dirname(os.path.dirname(os.path.abspath(__file__)))
 pid = sys.argv[1]; tier = sys.argv[2] if len(sys.argv) > 2 else "quick"
-src = f"/tmp/seed-{pid}"
-work = os.path.join(V, "work", f"seedc-{pid}")
+suffix = sys.argv[3] if len(sys.argv) > 3 else ""          # "-2": a second change for the same property
+src = f"/tmp/seed{suffix}-{pid}" if suffix else f"/tmp/seed-{pid}"
+work = os.path.join(V, "work", f"seedc-{pid}{suffix}")
 shutil.rmtree(work, ignore_errors=True); os.makedirs(work)
 def sh(cmd, cwd=None, timeout=3600, env=None):
     p = subprocess.run(cmd, shell=True, cwd=cwd, stdout=subprocess.PIPE, stderr=subprocess.STDOUT, text=True, timeout=timeout, env=env)
@@ -59,7 +60,7 @@ else:
     out["check_violation_lines"] = sum(1 for l in o.splitlines() if l.startswith("VIOLATION"))
     out["first_reason"] = next((l.strip()[:400] for l in o.splitlines() if l.strip().startswith("reason")), "")
     out["detected"] = rc == 1
-d = os.path.join(V, "seeded", pid); os.makedirs(d, exist_ok=True)
+d = os.path.join(V, "seeded", pid + suffix); os.makedirs(d, exist_ok=True)
 shutil.copy(os.path.join(src, "patch.diff"), d); shutil.copy(os.path.join(src, "demo.py"), d)
 if os.path.exists(os.path.join(src, "meta.txt")): shutil.copy(os.path.join(src, "meta.txt"), os.path.join(d, "agent_meta.txt"))
 out["confirmed"] = bool(out["only_package_sources"] and out["patch_applies_to_base"] and sorted(out["files_really_changed_in_base"]) == sorted(files) and out["demo_exit_without_change"] == 0
